@@ -19,7 +19,7 @@ PROP = dict(
     level_note=("Trusted: Coq kernel+VM; differential tie on sampled scenarios; the scripted client honours cancellation at once (a client that "
                 "reacts late delays the return by its own reaction time); deadlines never coincide with another timer (Go picks either branch then); "
                 "struct-tag parsing itself is C20's."),
-    rule=("random NewStore scenarios (file-backed clients over generated files with usable members and 10 kinds of members that are not a usable secret; 0-3 entries in StoreConfig.Structs of three struct types with overlapping/disjoint tags and variously spelled prefixes, with and without cfg.Secrets; outages of 4:59-31 virtual minutes under a context without a deadline; 1-7 declared names with duplicates, three client kinds (scripted StoreClient, real FileClient, real setec.Client over a scripted HTTP transport incl. hanging and slow servers), cache absent/empty/syntax error/type error after k valid entries/partial/complete/"
+    rule=("random NewStore scenarios (configurations with 17-64 declared names; complete caches holding an empty value with the service unreachable; file-backed clients over generated files with usable members and 10 kinds of members that are not a usable secret; 0-3 entries in StoreConfig.Structs of three struct types with overlapping/disjoint tags and variously spelled prefixes, with and without cfg.Secrets; outages of 4:59-31 virtual minutes under a context without a deadline; 1-7 declared names with duplicates, three client kinds (scripted StoreClient, real FileClient, real setec.Client over a scripted HTTP transport incl. hanging and slow servers), cache absent/empty/syntax error/type error after k valid entries/partial/complete/"
           "invalid, per-name failure scripts with latencies, deadlines at half-millisecond instants, misconfigurations); one case = one call; "
           "non-trivial if the service was contacted or a cache document was supplied; distinct by input"),
     explain=("setec.NewStore (outcome, requests with virtual instants, instant of return, cache writes, probe poll or values served) differs from the "
